@@ -152,6 +152,12 @@ func runC07(seed int64, tier string, sc *Script) map[string]any {
 				}
 				sc.Op("ok", "g index %d", id)
 				sc.Count("op:index")
+			case r == 5 && i%3 == 0:
+				if err := g.IndexAll(ctx, c, u.Nodes[id].Desc); err != nil {
+					panic(err)
+				}
+				sc.Op("ok", "g indexall %d", id)
+				sc.Count("op:indexall")
 			case r < 7:
 				dang := g.Remove(u.Nodes[id].Desc)
 				sc.Op("dang="+predIDs(u, dang, nil), "g remove %d", id)
@@ -167,6 +173,54 @@ func runC07(seed int64, tier string, sc *Script) map[string]any {
 		for _, n := range u.Nodes {
 			ds, err := g.Predecessors(ctx, n.Desc)
 			sc.Op(predIDs(u, ds, err), "g preds %d", n.ID)
+		}
+	}
+	// Part A3: IndexAll over graphs in which the bytes of a manifest are also listed as an
+	// opaque blob (another media type), and the opaque listing is met first: the manifest is a
+	// node of its own and is indexed all the same
+	for h := 0; h < randomHist/4+3; h++ {
+		u := NewUniverse()
+		cfgB := u.AddBlob(ocispec.MediaTypeImageConfig, []byte(fmt.Sprintf("{\"a3\":%d}", h)))
+		l := u.AddBlob(ocispec.MediaTypeImageLayer, []byte(fmt.Sprintf("a3-layer-%d", h)))
+		m := u.AddImage(KOCIManifest, cfgB.ID, []int{l.ID}, -1, "", map[string]string{"a3": fmt.Sprint(h)})
+		alias := u.AddAlias(m.ID)
+		x := u.AddIndex(KOCIIndex, []int{m.ID}, -1, "", map[string]string{"x": fmt.Sprint(h)})
+		var root *Node
+		switch h % 3 {
+		case 0: // the opaque listing is a direct child, the manifest one level further down
+			root = u.AddIndex(KOCIIndex, []int{alias.ID, x.ID}, -1, "", map[string]string{"r": fmt.Sprint(h)})
+		case 1: // both one level down
+			w := u.AddImage(KOCIManifest, cfgB.ID, []int{alias.ID}, -1, "", map[string]string{"w": fmt.Sprint(h)})
+			root = u.AddIndex(KOCIIndex, []int{w.ID, x.ID}, -1, "", map[string]string{"r": fmt.Sprint(h)})
+		default: // the manifest first
+			root = u.AddIndex(KOCIIndex, []int{m.ID, alias.ID}, -1, "", map[string]string{"r": fmt.Sprint(h)})
+		}
+		c := fullCAS(u)
+		sc.Case("graphmem-indexall-alias")
+		sc.NonTrivial()
+		declareGraph(sc, u)
+		g := graph.NewMemory()
+		if err := g.IndexAll(ctx, c, root.Desc); err != nil {
+			panic(err)
+		}
+		sc.Op("ok", "g indexall %d", root.ID)
+		sc.Count("op:indexall")
+		for _, n := range u.Nodes {
+			ds, err := g.Predecessors(ctx, n.Desc)
+			sc.Op(predIDs(u, ds, err), "g preds %d", n.ID)
+		}
+		// and on top of a random history
+		if h%2 == 0 {
+			dang := g.Remove(m.Desc)
+			sc.Op("dang="+predIDs(u, dang, nil), "g remove %d", m.ID)
+			if err := g.IndexAll(ctx, c, x.Desc); err != nil {
+				panic(err)
+			}
+			sc.Op("ok", "g indexall %d", x.ID)
+			for _, n := range u.Nodes {
+				ds, err := g.Predecessors(ctx, n.Desc)
+				sc.Op(predIDs(u, ds, err), "g preds %d", n.ID)
+			}
 		}
 	}
 	// Part B: the three stores
@@ -275,6 +329,7 @@ func runC07(seed int64, tier string, sc *Script) map[string]any {
 					case 2:
 						tp := dir + ".tar"
 						tarAppended = rng.Intn(2) == 0
+						tarPAX = nextTarPAX()
 						if err := tarDir(dir, tp); err != nil {
 							panic(err)
 						}
@@ -314,6 +369,16 @@ func runC07(seed int64, tier string, sc *Script) map[string]any {
 // current one comes later; a later entry of the same name replaces an earlier one.
 var tarAppended bool
 
+// tarPAX (set around a call of tarDir): every entry carries an extended (PAX) header, as
+// archives written with sub-second times, extended attributes or long names do, so that an
+// entry's header block is not the only block in front of its payload
+var tarPAX bool
+var tarCount int
+
+// nextTarPAX alternates (three archives out of four keep the plain format) without drawing from
+// the case generator's random stream
+func nextTarPAX() bool { tarCount++; return tarCount%4 == 0 || tarCount == 1 }
+
 func tarDir(dir, out string) error {
 	f, err := os.Create(out)
 	if err != nil {
@@ -349,6 +414,10 @@ func tarDir(dir, out string) error {
 		hdr.Name = filepath.ToSlash(rel)
 		if d.IsDir() {
 			hdr.Name += "/"
+		}
+		if tarPAX {
+			hdr.Format = tar.FormatPAX
+			hdr.PAXRecords = map[string]string{"VERIF.entry": rel}
 		}
 		if err := tw.WriteHeader(hdr); err != nil {
 			return err
